@@ -43,7 +43,7 @@ def run(ctx):
         raise vk.Inconclusive("too few scripts from TLC: %s" % short)
     generated = {k: len(v) for k, v in fam.items()}
     rng = random.Random(ctx.seed)
-    cap = ctx.pick(3000, 10 ** 9)
+    cap = ctx.pick(3000, 20000)
     if len(fam["grammar"]) > cap:
         # the derivations are a sample in the quick tier; fields / damage / json are always complete
         fam["grammar"] = rng.sample(fam["grammar"], cap)
@@ -155,4 +155,4 @@ def run(ctx):
                "violation_signatures": dict(counts),
                "exhaustive_scope": "every field prefix x value class x 5 contexts; every token sequence of length <= %d over the "
                                    "10-token damage alphabet; every JSON body shape (10 x 10 x 14 x 2 handlers); EBNF derivations "
-                                   "<= %d tokens (%s)" % (ctx.pick(4, 5), ctx.pick(5, 6), ctx.pick("sampled: 3000", "all"))})
+                                   "<= %d tokens (%s)" % (ctx.pick(4, 5), ctx.pick(5, 6), ctx.pick("sampled: 3000", "sampled: 20000"))})
